@@ -375,6 +375,40 @@ def run(chk):
             chk.violation(r_reb, key + ":install", "Well::%s does not install the rebuilt set with updateConnections(new_connections, ...)" % key, f["file"], f["l"])
     chk.extra["rebuild_functions"] = n_fn
 
+    # ---- C06.match: which connections a record targets
+    r_ma = chk.rule("C06.match", "connection selectors of Well.cpp (WPIMULT, WELOPEN, COMPLUMP, WINJCLN, ...): match_eq/ge/le compare the connection's I with item I, J with J, K with K*, the completion number with C1/C2/FIRST/LAST; lower bounds use match_ge, upper bounds match_le", floor=15)
+    ACC = {"I": "getI", "J": "getJ", "K": "getK", "K1": "getK", "K2": "getK", "K_UPPER": "getK", "K_LOWER": "getK", "C1": "complnum", "C2": "complnum", "FIRST": "complnum", "LAST": "complnum"}
+    OPS = {"I": "match_eq", "J": "match_eq", "K": "match_eq", "K1": "match_ge", "K_UPPER": "match_ge", "C1": "match_ge", "FIRST": "match_ge", "K2": "match_le", "K_LOWER": "match_le", "C2": "match_le", "LAST": "match_le"}
+    for f in fx.fns:
+        if not f["file"].endswith(WELL) or not f.get("body"):
+            continue
+        for n in walk_fn(f):
+            if n["k"] != "Call" or (n.get("fn") or "").split("::")[-1] not in ("match_eq", "match_ge", "match_le") or len(n.get("a", [])) < 3:
+                continue
+            fn_ = n["fn"].split("::")[-1]
+            acc = meth(strip(n["a"][0]))[0]
+            a2 = n["a"][2]
+            item = None
+            lits = [x["v"] for x in walk(a2) if x["k"] == "Str"]
+            if lits:
+                item = lits[0]
+            else:
+                refs = [x for x in walk(a2) if x["k"] == "Ref" and (x.get("q") or "").endswith("::itemName")]
+                if refs:
+                    item = refs[0]["q"].split("::")[-2]
+            key = "%s:%s@%s" % (f["q"].split("::")[-1], item, n["l"])
+            if item is None or acc is None:
+                chk.info(r_ma, "%s: selector `%s` not of the form match(c.<accessor>(), record, <item>)" % (f["q"], show(n)[:80]))
+                continue
+            chk.instance(r_ma, key, sample=dict(function=f["q"], item=item, compares=acc, with_=fn_))
+            if item not in ACC:
+                chk.fail_broken("C06.match: record item %s used in %s is not in the selector table of rules/C06.py" % (item, f["q"]))
+                continue
+            if acc != ACC[item]:
+                chk.violation(r_ma, key, "%s compares the connection's %s() with record item %s; item %s selects on %s(): the record then targets other connections than the ones it names" % (f["q"], acc, item, item, ACC[item]), f["file"], n["l"])
+            if fn_ != OPS[item]:
+                chk.violation(r_ma, key + ":op", "%s uses %s for record item %s (expected %s)" % (f["q"], fn_, item, OPS[item]), f["file"], n["l"])
+
     # ---- C06.frame: net-to-gross scales the VERTICAL cell extent: index 2 of a triple that is still in the grid's
     # x,y,z order, never of one that has been permuted into the completion's order
     r_fr = chk.rule("C06.frame", "net-to-gross multiplies component [2] of a triple in grid (x,y,z) order, not of one permuted into completion order; a function that receives ntg uses it", floor=5)
